@@ -161,7 +161,7 @@ func checkGetterFinality(w *World, r *Report, rule string) {
 				}
 				if st, ok := in.(*ssa.Store); ok {
 					if f, ok := fieldOf(st.Addr); ok && f.Owner == tBar && f.Name == "bs" {
-						r.Check(fn == loop, rule, "store Bar.bs in "+fnShort(fn), w.instrPos(in), "published by the bar loop", "the published bar state is stored outside the bar loop")
+						r.Check(loop != nil && w.unit(loop)[fn], rule, "store Bar.bs in "+fnShort(fn), w.instrPos(in), "published by the bar loop", "the published bar state is stored outside the bar loop")
 					}
 				}
 			}
@@ -625,7 +625,7 @@ func checkCloseOnce(w *World, r *Report, rule string) {
 		}
 		for _, op := range ct.Ops {
 			if op.Kind == "close" && op.Class.has(c.cls) {
-				r.Check(op.Fn == want, rule+"w", "closer of "+c.cls+": "+fnShort(op.Fn), w.instrPos(op.Instr), "closed by its owner ("+c.where+")", "closed outside its owner loop")
+				r.Check(want != nil && w.unit(want)[op.Fn], rule+"w", "closer of "+c.cls+": "+fnShort(op.Fn), w.instrPos(op.Instr), "closed by its owner ("+c.where+")", "closed outside its owner loop")
 			}
 		}
 	}
